@@ -1,6 +1,7 @@
 package primitives
 
 import (
+	"fmt"
 	"math"
 
 	"github.com/EliCDavis/polyform/modeling"
@@ -21,6 +22,9 @@ type Circle struct {
 }
 
 func (c Circle) ToMesh() modeling.Mesh {
+	if c.Sides < 1 {
+		panic(fmt.Errorf("invalid side count (%d) for circle", c.Sides))
+	}
 
 	angleIncrement := (1.0 / float64(c.Sides)) * 2.0 * math.Pi
 	vertices := make([]vector3.Float64, c.Sides+1)
